@@ -186,6 +186,18 @@ class VTuple:
         return f"VTuple({self.items})"
 
 
+class ViewRef:
+    """The row view a[i] handed out by `for row in a` over a heap ndarray whose body writes through `row`: reads and
+    writes of row[...] go to the CURRENT content of the array (any other use takes a snapshot of the row)."""
+
+    def __init__(self, base, index):
+        self.base = base      # Ref to the ndarray cell
+        self.index = index    # int / z3 Int: the row
+
+    def __repr__(self):
+        return f"ViewRef({self.base},{self.index})"
+
+
 class Poison:
     """Value of a local that is (re)defined inside a loop body and undefined at the loop head."""
 
